@@ -16,6 +16,12 @@
 (*   sync   : td.pre_exec_sync                                             *)
 (*   argv   : sequence of token classes (td.arguments)                     *)
 (*   env    : sequence of token classes (values of td.environment)         *)
+(*   envk   : per entry of env, what else knows its key: "fresh" (nobody),  *)
+(*            "innamed" (the named environment defines it, other value),    *)
+(*            "agent" (set in the launching process' environment, absent    *)
+(*            from the named environment: activation unsets it)             *)
+(*   nenv   : the task runs in a named environment (td.named_env), prepared *)
+(*            in the pilot sandbox; its activation script is sourced        *)
 (*   omp    : td.threading_type = OpenMP                                   *)
 (*   gpr    : GPUs per rank (rank r is assigned GPUs r*gpr .. r*gpr+gpr-1) *)
 (*   out, err : "default" | "rel" | "abs": td.stdout / td.stderr unset, a  *)
@@ -107,6 +113,20 @@ LaunchRun(c, F, xrc) ==
             ranks    |-> rr,
             out      |-> FileOf(c.out, "out"),
             err      |-> FileOf(c.err, "err")]
+
+\* environment keys: where the value the executable sees comes from.  Reference:
+\* the named environment is activated first, the described variables are
+\* exported afterwards, so every described variable has the described value
+KeyKinds == {"fresh", "innamed", "agent"}
+EnvBefore(c) == [i \in 1 .. Len(c.env) |-> IF c.envk[i] = "agent" THEN "agent" ELSE "none"]
+Activate(c, ev) ==
+  [i \in 1 .. Len(ev) |->
+     IF ~c.nenv THEN ev[i]
+     ELSE IF c.envk[i] = "innamed" THEN "named"
+     ELSE IF c.envk[i] = "agent" THEN "unset"
+     ELSE ev[i]]
+Export(ev) == [i \in 1 .. Len(ev) |-> "described"]
+SeenEnv(c) == Export(Activate(c, EnvBefore(c)))
 
 \* what the executable of rank r sees besides argv / environment
 GpusOf(c, r) == [j \in 1 .. c.gpr |-> r * c.gpr + (j - 1)]
